@@ -69,7 +69,7 @@ CLASS_ATTRS = {
         '_f1_arr': 'list(arr1)', '_f2_arr': 'list(arr1)',
     },
     'anova_func.ANOVA_func': {
-        'X_trn': 'arr2', 'y_trn': 'arr1', 'lamb': 'num', '_cfs': 'list(num|arr1)|none', 'd': 'num', 'n': 'num',
+        'X_trn': 'arr2', 'y_trn': 'arr1', 'lamb': 'num|none', '_cfs': 'list(num|arr1)|none', 'd': 'num', 'n': 'num',
     },
 }
 
@@ -94,7 +94,7 @@ C('utils._info_appr', params={'info': INFO, 't': 'num'}, clock_params=('t',), re
   note='log=True only adds a print of text built from info (DESIGN 1.1: log branches are dropped)')
 C('utils._is_num', cases=[case('number', params={'A': 'num'}, returns='bool=True'),
                           case('other', params={'A': 'arr|list|tuple|none|dict|str'}, returns='bool=False')])
-C('utils._maxvol', params={'A': 'arr2'}, returns='tuple(arr1,arr2)')
+C('utils._maxvol', params={'A': 'arr2'}, returns='tuple(arr,arr)')
 C('utils._ones', params={'k': 'num', 'm': 'num'}, returns='arr2')
 C('utils._rand', returns='gen~seed', note='int / None -> default_rng(seed) (derived from the seed); anything else is returned as is')
 C('utils._range', params={'n': 'num'}, returns='arr2')
@@ -110,14 +110,14 @@ C('act_one.copy', cases=[
     case('number', params={'Y': 'num|none'}, returns='~Y', licence='numbers / None are immutable (DESIGN App. A)')])
 C('act_one.get', params={'i': 'like1'}, cases=[
     case('_to_item=True', flags={'_to_item': True}, params={'i': 'like1'}, returns='num'),
-    case('_to_item=True,many', flags={'_to_item': True}, params={'i': 'like2'}, returns='arr1'),
+    case('_to_item=True,many', flags={'_to_item': True}, params={'i': 'like2'}, returns='arr'),
     case('_to_item=False', flags={'_to_item': False}, params={'i': 'like1'}, returns='arr~Y[]', service=True,
          licence='undocumented service flag, excluded from the exported surface (App. A); used by svd_incomplete')],
   excluded_flags={'_to_item': False})
 C('act_one.get_and_grad', params={'i': 'like1'}, flags={'check_phi': False}, returns='tuple(num,list(arr3))',
   excluded_flags={'check_phi': True})
 C('act_one.get_many', params={'I': 'like2'}, cases=[
-    case('_to_item=True', flags={'_to_item': True}, returns='arr1'),
+    case('_to_item=True', flags={'_to_item': True}, returns='arr'),
     case('_to_item=False', flags={'_to_item': False}, returns='arr', service=True)],
   excluded_flags={'_to_item': False})
 C('act_one.getter', excluded='needs numba (not installed); listed as unverified in DESIGN 1.1 / App. A')
@@ -164,8 +164,8 @@ C('transformation.truncate', returns='tt')
 C('core.core_dot', params={'R': 'arr2|num'}, returns='arr3')
 C('core.core_dot_inv', returns='arr3')
 C('core.core_dot_maxvol', cases=[
-    case('ind=None', params={'ind': 'none'}, returns='tuple(arr2,arr1)'),
-    case('ind given', params={'ind': 'arr1'}, returns='tuple(arr2,~ind)',
+    case('ind=None', params={'ind': 'none'}, returns='tuple(arr,arr)'),
+    case('ind given', params={'ind': 'arr1'}, returns='tuple(arr,~ind)',
          licence='App. A: hands back the index vector it was given (an index vector, not a tensor)')])
 C('core.core_qr_rand', params={'m': 'num'}, seeded=True, returns='arr3')
 C('core.core_qtt_to_tt', params={'Q_list': 'list(arr3)'}, returns='arr3')
@@ -201,8 +201,8 @@ C('vectors.vector_delta', returns='list(arr3)')
 C('vis.show', returns='none')
 
 # --------------------------------------------------------------------------------------------------------- maxvol
-C('maxvol.maxvol', params={'A': 'arr2'}, returns='tuple(arr1,arr2)')
-C('maxvol.maxvol_rect', params={'A': 'arr2'}, returns='tuple(arr1,arr2)')
+C('maxvol.maxvol', params={'A': 'arr2'}, returns='tuple(arr1,arr)')
+C('maxvol.maxvol_rect', params={'A': 'arr2'}, returns='tuple(arr,arr)')
 
 # -------------------------------------------------------------------------------------------------------- tensors
 C('tensors.const', params={'n': 'like1', 'I_zero': 'like2|none', 'i_non_zero': 'like1|none'}, returns='list(arr3)')
@@ -219,9 +219,9 @@ C('sample.sample', params={'m': 'num'}, seeded=True, returns='arr2')
 C('sample.sample_lhs', params={'n': 'like1', 'm': 'num'}, seeded=True, returns='arr2')
 C('sample.sample_rand', params={'n': 'like1', 'm': 'num'}, seeded=True, returns='arr2')
 C('sample.sample_rand_poi', params={'a': 'like1', 'b': 'like1', 'm': 'num'}, seeded=True, returns='arr2')
-C('sample.sample_square', params={'m': 'num'}, flags={'float_cf': None}, seeded=True, returns='arr2',
+C('sample.sample_square', params={'m': 'num'}, flags={'float_cf': None}, seeded=True, returns='arr',
   excluded_flags={'float_cf': '<not None>'})
-C('sample.sample_tt', params={'n': 'like1', 'r': 'num'}, seeded=True, returns='tuple(arr2,arr1,arr1)')
+C('sample.sample_tt', params={'n': 'like1', 'r': 'num'}, seeded=True, returns='tuple(arr,arr1,arr1)')
 C('sample._extend_core', params={'n': 'num'}, returns='arr3')
 C('sample._sample_core_first', params={'Q': 'arr2', 'I': 'arr2', 'm': 'num'}, rng=('param',), returns='tuple(arr2,arr2)')
 
@@ -229,7 +229,7 @@ C('sample._sample_core_first', params={'Q': 'arr2', 'I': 'arr2', 'm': 'num'}, rn
 C('sample_func.sample_func', params={'A': 'tt'}, flags={'cores_are_prepared': False}, seeded=True, returns='arr1',
   excluded_flags={'cores_are_prepared': True})
 C('sample_func._cheb_my_poly', params={'X': 'like|num', 'n': 'num'}, returns='arr')
-C('sample_func._sample_poly_1', params={'p2': 'obj:numpy.poly'}, rng=('param',), returns='num')
+C('sample_func._sample_poly_1', params={'p2': 'obj:numpy.poly'}, rng=('param',), returns='num|arr')
 
 # ---------------------------------------------------------------------------------------------------- optima_func
 C('optima_func.optima_func_tt_beam', params={'A': 'tt'}, returns='arr')
@@ -239,14 +239,14 @@ C('optima_func._find_poly_max', params={'p': 'like1', 'clip': 'list(num)', 'k_ma
 C('optima_func._step_top_k', params={'X_prev': 'arr2|none', 'G_prev': 'arr2'}, returns='tuple(arr2,arr2)')
 
 # --------------------------------------------------------------------------------------------------------- optima
-C('optima.optima_qtt', returns='tuple(arr,num,arr,num)')
-C('optima.optima_tt', returns='tuple(arr1,num,arr1,num)')
+C('optima.optima_qtt', returns='tuple(arr,num|arr1,arr,num|arr1)')
+C('optima.optima_tt', returns='tuple(arr,num|arr1,arr,num|arr1)')
 C('optima.optima_tt_beam', flags={'to_orth': True}, returns='arr',
   excluded_flags={'to_orth': False})
-C('optima.optima_tt_max', returns='tuple(arr1,num)')
+C('optima.optima_tt_max', returns='tuple(arr,num|arr1)')
 C('optima.optima_tt_maxvol', flags={'use': 'mv'}, returns='tuple(any,num,any,num)', excluded_flags={'use': 'k_means'})
 C('optima._k_means_spere', excluded="use='k_means' path (needs sklearn SpectralClustering, not imported); excluded by precondition (App. A)")
-C('optima._select_maxvol', params={'vecs': 'arr2', 'core': 'arr3'}, flags={'use': 'mv'}, returns='tuple(arr1,arr2)')
+C('optima._select_maxvol', params={'vecs': 'arr2', 'core': 'arr3'}, flags={'use': 'mv'}, returns='tuple(arr,arr)')
 C('optima._select_top_k_l2r', flags={'use': 'mv'}, returns='tuple(any,any)')
 C('optima._select_top_k_r2l', flags={'use': 'mv'}, cases=[
     case('other=None', params={'other': 'none'}, returns='tuple(any,any)'),
@@ -276,7 +276,7 @@ C('func.func_sum', params={'A': 'tt'}, returns='num')
 C('func_full.func_get_full', params={'X': 'arr2', 'A': 'arr', 'skip_out': 'bool'}, returns='arr1')
 C('func_full.func_gets_full', params={'A': 'arr', 'm': 'num|like1|none'}, returns='arr')
 C('func_full.func_int_full', params={'Y': 'arr'}, returns='arr')
-C('func_full.func_sum_full', params={'A': 'arr'}, returns='num')
+C('func_full.func_sum_full', params={'A': 'arr'}, returns='num|arr')
 
 # ---------------------------------------------------------------------------------------------------------- cross
 C('cross.cross', flags={'func': None, 'log': False}, params={'m': 'num|none'}, returns='tt',
@@ -289,11 +289,11 @@ C('cross._func', params={'Ig': 'arr2', 'Ir': 'arr2|none', 'Ic': 'arr2|none'}, re
 C('cross._func_eval', params={'I': 'arr2'}, returns='arr1|none',
   modifies={'info': 'cont', 'cache': 'cont'}, dict_reads={'info': ('m_max', 'm', 'm_cache'), 'cache': ('*',)},
   licence=L_INFO + ' (helper of cross)')
-C('cross._iter', params={'Z': 'arr3', 'Ig': 'arr2', 'I': 'arr2|none'}, returns='tuple(arr3,arr2,arr2)')
+C('cross._iter', params={'Z': 'arr3', 'Ig': 'arr2', 'I': 'arr2|none'}, returns='tuple(arr3,arr,arr)')
 
 # ------------------------------------------------------------------------------------------------------ cross_act
 C('cross_act.cross_act', params={'X_list': 'list(tt)', 'e': 'num', 'nswp': 'num', 'r': 'num'}, seeded=True, returns='tt')
-C('cross_act._amen', params={'U1': 'arr2', 'U2': 'arr2'}, returns='tuple(arr2,arr2)')
+C('cross_act._amen', params={'U1': 'arr2', 'U2': 'arr2'}, returns='tuple(arr2,arr)')
 C('cross_act._amen_z', params={'dG': 'arr3', 'R1': 'arr2', 'R2': 'arr2', 'rand': 'gen|none'}, rng=('param',),
   returns='arr3')
 C('cross_act._func', params={'G': 'objarr(arr3)|arr3', 'R1': 'objarr(arr2)|arr2|list(arr2)', 'R2': 'objarr(arr2)|arr2|list(arr2)'},
@@ -339,7 +339,7 @@ C('als_func._optimize_core',
 
 # ---------------------------------------------------------------------------------------------------------- anova
 _AN = 'anova.ANOVA.'
-C(_AN + '__init__', seeded=True, modifies={'self': 'cont'}, io=True, returns='none',
+C(_AN + '__init__', params={'order': 'num'}, seeded=True, modifies={'self': 'cont'}, io=True, returns='none',
   licence='constructor; fpath loads a pickled model (documented)')
 C(_AN + '__call__', params={'I': 'like'}, returns='num|arr1')
 C(_AN + '__getitem__', params={'I': 'like'}, returns='num|arr1')
@@ -363,7 +363,7 @@ C(_AN + 'pair_num_to_num', params={'x1': 'num', 'x2': 'num'}, returns='num')
 C(_AN + 'sample', params={'xi': 'num|none', 'eps': 'num'}, rng=('self',), returns='list(num)')
 C(_AN + 'save', io=True, returns='none', licence='documented fpath feature')
 C('anova.anova', params={'r': 'num', 'order': 'num'}, seeded=True, io=True, returns='list(arr3)')
-C('anova._core_one', params={'n': 'num', 'r': 'num'}, returns='arr3')
+C('anova._core_one', params={'n': 'num', 'r': 'num'}, returns='arr')
 C('anova._second_order_2_tt', params={'A': 'arr2', 'i': 'num', 'j': 'num', 'shapes': 'arr1'}, returns='list(arr3)')
 
 # ----------------------------------------------------------------------------------------------------- anova_func
@@ -371,7 +371,7 @@ _AF = 'anova_func.ANOVA_func.'
 C(_AF + '__init__', params={'n': 'num', 'a': 'num|like1', 'b': 'num|like1'}, modifies={'self': 'cont'},
   retains=('y_trn',), returns='none',
   licence='App. A: constructors keep references to (never write) their training arrays')
-C(_AF + 'coeffs', modifies={'self': 'cont'}, returns='list(num|arr1)~self._cfs', licence=L_PRIV + ': cached property (fills and returns its cache)')
+C(_AF + 'coeffs', modifies={'self': 'cont'}, returns='list(num|arr1)~self._cfs|none', licence=L_PRIV + ': cached property (fills and returns its cache)')
 C(_AF + 'cores', params={'e': 'num|none'}, modifies={'self': 'cont'}, returns='list(arr3)',
   licence='fills the cached coefficients of the instance')
 C('anova_func.anova_func', params={'n': 'num', 'a': 'num|like1', 'b': 'num|like1', 'e': 'num|none'}, returns='list(arr3)')
